@@ -3,8 +3,10 @@
 
    One action per VM message (MsgAddPackage / MsgCall / MsgRun), structured like
    gno.land/pkg/sdk/vm/keeper.go processStorageDeposit (lines 1795-1927):
-     - the per-realm byte deltas of the message (objects stored under the realm's PkgID +
-       the realm's chain/params bytes) are the action's ARGUMENT `diffs`;
+     - the per-realm byte deltas of the message are the action's ARGUMENTS: `od` = delta of the
+       objects stored under the realm's PkgID (gnostore.RealmStorageDiffs), `pd` = delta of the
+       realm's own chain/params entries (ParamsRealmDiffs); what is charged / refunded for a
+       realm is their SUM od[r] + pd[r] (both may be non-zero in one message, with either sign);
      - the price and the default limit are the values in effect when the message STARTED
        (params are read before the message runs; a price written by the message itself only
        applies to later messages);
@@ -35,9 +37,10 @@ VARIABLES storage, deposit,   \* per realm: Realm.Storage, Realm.Deposit
           dbal,               \* per realm: balance of the storage-deposit address
           bal,                \* per account (and Collector)
           price, restricted,
+          objb, parb,         \* per realm: bytes of its objects / of its chain/params entries in the store
           hist
 
-svars == <<storage, deposit, dbal, bal, price, restricted>>
+svars == <<storage, deposit, dbal, bal, price, restricted, objb, parb>>
 vars == <<svars, hist>>
 view == <<svars, Len(hist)>>
 
@@ -83,41 +86,54 @@ Process(caller, limit, fee, diffs) == Loop(St0(caller, limit, fee), 1, caller, d
 Limit(maxDeposit) == IF maxDeposit = 0 THEN DefaultLimit ELSE maxDeposit
 MsgOK(caller, maxDeposit, fee, diffs) == LET s == Process(caller, Limit(maxDeposit), fee, diffs) IN ~s.err /\ ~s.panic
 
+\* the delta the keeper works with: object delta + chain/params delta of the same realm
+Sum(od, pd) == [r \in Realms |-> od[r] + pd[r]]
+
 \* A message: maxDeposit = 0 means params.DefaultDeposit. newPrice / newRestr = what the message
 \* itself wrote through the params keeper (applies after the message). fee = gas fee of the tx.
-Msg(caller, maxDeposit, fee, diffs, newPrice, newRestr) ==
-  LET s == Process(caller, Limit(maxDeposit), fee, diffs)
+Msg(caller, maxDeposit, fee, od, pd, newPrice, newRestr) ==
+  LET diffs == Sum(od, pd)
+      s == Process(caller, Limit(maxDeposit), fee, diffs)
       ok == ~s.err /\ ~s.panic
   IN /\ bal[caller] >= fee
      /\ IF ok
         THEN /\ storage' = s.storage /\ deposit' = s.deposit /\ dbal' = s.dbal
              /\ bal' = s.bal
              /\ price' = newPrice /\ restricted' = newRestr
+             /\ objb' = [r \in Realms |-> objb[r] + od[r]] /\ parb' = [r \in Realms |-> parb[r] + pd[r]]
         ELSE /\ bal' = [bal EXCEPT ![caller] = @ - fee]
-             /\ UNCHANGED <<storage, deposit, dbal, price, restricted>>
+             /\ UNCHANGED <<storage, deposit, dbal, price, restricted, objb, parb>>
 
 \* ------------------------------------------------------------------ invariants (the statement)
 DepositBacked == \A r \in Realms : dbal[r] >= deposit[r]
 NonNegative == /\ \A r \in Realms : storage[r] >= 0 /\ deposit[r] >= 0 /\ dbal[r] >= 0
                /\ \A a \in Holders : bal[a] >= 0
 FreeAllRefundsAll == \A r \in Realms : storage[r] = 0 => deposit[r] = 0
+\* the recorded usage is the size of the realm's objects plus the bytes of its chain parameters
+StorageIsSum == \A r \in Realms : storage[r] = objb[r] + parb[r]
 \* nothing is created or destroyed by lock / refund (fees leave through `fee`)
 RECURSIVE SumF(_, _)
 SumF(f, X) == IF X = {} THEN 0 ELSE LET x == CHOOSE y \in X : TRUE IN f[x] + SumF(f, X \ {x})
 Total == SumF(dbal, Realms) + SumF(bal, Holders)
 
 \* ------------------------------------------------------------------ bounded model (M)
-CONSTANTS DiffVals, PriceVals, LimitVals, MaxLen, InitBal
+CONSTANTS DiffVals, ParamVals, PriceVals, LimitVals, MaxLen, InitBal
 Init ==
   /\ storage = [r \in Realms |-> 0] /\ deposit = [r \in Realms |-> 0] /\ dbal = [r \in Realms |-> 0]
   /\ bal = [a \in Holders |-> IF a = Collector THEN 0 ELSE InitBal]
+  /\ objb = [r \in Realms |-> 0] /\ parb = [r \in Realms |-> 0]
   /\ price = 1 /\ restricted = FALSE /\ hist = <<>>
 
 Next ==
   /\ Len(hist) < MaxLen
-  /\ \E c \in Accounts, m \in LimitVals, df \in [Realms -> DiffVals], np \in PriceVals, nr \in BOOLEAN :
+  /\ \E c \in Accounts, m \in LimitVals, od \in [Realms -> DiffVals], rp \in Realms, pv \in ParamVals,
+        np \in PriceVals, nr \in BOOLEAN :
+       LET pd == [r \in Realms |-> IF r = rp THEN pv ELSE 0]       \* one realm writes its params per message
+           df == Sum(od, pd)
+       IN
        /\ (np = price \/ nr = restricted)                 \* one parameter change per message at most
-       /\ Msg(c, m, 0, df, np, nr)
+       /\ \A r \in Realms : objb[r] + od[r] >= 0 /\ parb[r] + pd[r] >= 0   \* bytes on disk are not negative
+       /\ Msg(c, m, 0, od, pd, np, nr)
        /\ hist' = Append(hist, [act |-> "Msg", caller |-> c, limit |-> m, diffs |-> df, ok |-> MsgOK(c, m, 0, df),
                                 price |-> price'])
 Spec == Init /\ [][Next]_vars
